@@ -403,22 +403,38 @@ func checkReaders(c *core.Ctx, tabs *Tables, prefix string, full bool, only ...s
 			if b == '\n' || b == '\r' {
 				continue
 			}
-			nEval++
-			lines := []string{">id1", "AC" + string([]byte{byte(b)}) + "T", ">id2", "ACGT"}
-			res := runReader(c, tabs, rd.pkg, rd.name, lines, false, "")
-			if res.undecide != "" || res.crash != "" {
-				bad = append(bad, fmt.Sprintf("byte 0x%02x: %s%s", b, res.undecide, res.crash))
-				continue
+			x := string([]byte{byte(b)})
+			// the byte inside a line, as the first and as the last symbol of a line, on a continuation line, in the last record
+			layouts := [][]string{
+				{">id1", "AC" + x + "T", ">id2", "ACGT"},
+				{">id1", x + "CGT", ">id2", "ACGT"},
+				{">id1", "ACG" + x, ">id2", "ACGT"},
+				{">id1", "AC", x + "T", ">id2", "ACGT"},
+				{">id1", "ACGT", ">id2", "AC", "G" + x},
 			}
-			wantErr := rd.validate && !isAccepted(byte(b))
-			if !rd.validate && !isAccepted(byte(b)) {
-				continue // the plain-text reader may read or reject other bytes; it must not crash (checked above)
+			if !full && isAccepted(byte(b)) {
+				layouts = layouts[:1]
 			}
-			if res.err != wantErr {
-				bad = append(bad, fmt.Sprintf("byte 0x%02x (%q) in a sequence: rejected=%v, want %v", b, byte(b), res.err, wantErr))
-			}
-			if wantErr && res.done {
-				bad = append(bad, fmt.Sprintf("byte 0x%02x: error reported but completion also signalled", b))
+			for li, lines := range layouts {
+				if byte(b) == '>' && (li == 1 || li == 3) {
+					continue // a line starting with '>' is a header
+				}
+				nEval++
+				res := runReader(c, tabs, rd.pkg, rd.name, lines, false, "")
+				if res.undecide != "" || res.crash != "" {
+					bad = append(bad, fmt.Sprintf("byte 0x%02x: %s%s", b, res.undecide, res.crash))
+					continue
+				}
+				wantErr := rd.validate && !isAccepted(byte(b))
+				if !rd.validate && !isAccepted(byte(b)) {
+					continue // the plain-text reader may read or reject other bytes; it must not crash (checked above)
+				}
+				if res.err != wantErr {
+					bad = append(bad, fmt.Sprintf("byte 0x%02x (%q) in a sequence (lines %q): rejected=%v, want %v", b, byte(b), lines, res.err, wantErr))
+				}
+				if wantErr && res.done {
+					bad = append(bad, fmt.Sprintf("byte 0x%02x: error reported but completion also signalled", b))
+				}
 			}
 		}
 		c.Ob(key+"/symbol-check-all-bytes", len(bad) == 0, pos, "%s", first(bad, 5))
@@ -498,7 +514,7 @@ func checkReaders(c *core.Ctx, tabs *Tables, prefix string, full bool, only ...s
 		c.Ob(key+"/total-on-blank-lines-and-empty-headers", len(bad) == 0, pos, "%s", first(bad, 4))
 	}
 	// findReference: same scanner loop, returns the named record
-	if len(only) == 0 {
+	if len(only) == 0 || containsStr(only, "findReference") {
 		pos := funcPos(c, "pkg/variants", "findReference")
 		key := prefix + "D/findReference"
 		var bad []string
@@ -525,6 +541,26 @@ func checkReaders(c *core.Ctx, tabs *Tables, prefix string, full bool, only ...s
 				res := runReader(c, tabs, "pkg/variants", "findReference", lines, false, "absent")
 				if !res.err {
 					bad = append(bad, "a reference ID that is not in the alignment is not reported as an error")
+				}
+			}
+			// the reference is the record whose ID EQUALS the name given: not a longer ID that starts with it, not a shorter
+			// one, not one in another letter case, wherever such near-namesakes sit in the file
+			for _, tc := range []struct {
+				lines []string
+				id    string
+				seq   string
+			}{
+				{[]string{">ref.2 later version", "ACGA", ">ref", "ACGT", ">reference", "ACGG"}, "ref", "ACGT"},
+				{[]string{">ref", "ACGT", ">ref.2", "ACGA"}, "ref.2", "ACGA"},
+				{[]string{">REF", "ACGA", ">re", "ACGC", ">ref", "ACGT"}, "ref", "ACGT"},
+				{[]string{">xref", "ACGA", ">ref|x", "ACGC", ">ref second field", "ACGT"}, "ref", "ACGT"},
+			} {
+				nEval++
+				res := runReader(c, tabs, "pkg/variants", "findReference", tc.lines, false, tc.id)
+				if res.undecide != "" || res.crash != "" {
+					bad = append(bad, fmt.Sprintf("lines %q: %s%s", tc.lines, res.undecide, res.crash))
+				} else if res.err || len(res.recs) != 1 || res.recs[0].ID != tc.id || res.recs[0].Seq != tc.seq {
+					bad = append(bad, fmt.Sprintf("lines %q, reference %q: err=%v records=%v, want the record with sequence %s", tc.lines, tc.id, res.err, res.recs, tc.seq))
 				}
 			}
 			c.Ob(key+"/finds-named-record-layout-independently", len(bad) == 0, pos, "%s", first(bad, 3))
